@@ -1,1 +1,104 @@
-From Coq Require Import List.
+(* Property C14 - TextFileStorage: what is stored under an id is what any process reads back.
+   Statements only; proofs in Proofs/StorageP.v.  Model/Storage.v: any number of processes, each running a program of
+   write / read / len / is_contiguous / iterate operations, share the index, the counters, the lock and the per-writer
+   files; an event is "process p makes its next access to shared state", a schedule is an arbitrary list of process
+   numbers (a step that is not enabled - a lock that is held - is a stutter).  Texts are single-line (no \n, no \r). *)
+From Coq Require Import ZArith List Bool Arith.
+From WPU Require Import Common.Val Model.Pool Model.Storage Proofs.StorageP.
+Import ListNotations.
+Open Scope nat_scope.
+
+(* for every set of programs and every interleaving: every completed operation of every process satisfies its contract -
+   a read of g raised IndexError or returned EXACTLY the text stored under g (never empty, partial or another id's text);
+   a write either stored its text under g or raised ValueError because g was taken *)
+Theorem C14_outputs : forall presize progs sched, progs_ok progs ->
+  let s := srun (sinit presize progs) sched in
+  forall p pr o r, nth_error (ss_procs s) p = Some pr -> In (o, r) (p_out pr) -> out_spec (ss_texts s) o r.
+Proof. intros presize progs sched Ok s. apply (b_out _ (sa_b _ (sall_run presize progs sched Ok))). Qed.
+Print Assumptions C14_outputs.
+
+Theorem C14_out_spec_def : forall texts o r, out_spec texts o r <->
+  match o with
+  | SRead g => r = RIndexError \/ exists t, r = RText t /\ In (g, t) texts
+  | SWrite g t => (r = RUnit /\ In (g, t) texts) \/ (r = RValueError /\ In g (map fst texts))
+  | _ => True end.
+Proof. intros; reflexivity. Qed.
+Print Assumptions C14_out_spec_def.
+
+(* one text per identifier, for ever *)
+Theorem C14_one_text_per_id : forall presize progs sched g t t', progs_ok progs ->
+  let s := srun (sinit presize progs) sched in In (g, t) (ss_texts s) -> In (g, t') (ss_texts s) -> t = t'.
+Proof. intros presize progs sched g t t' Ok s. apply texts_unique. apply sall_run. exact Ok. Qed.
+Print Assumptions C14_one_text_per_id.
+
+(* a reader that has looked an entry up (under the lock) and has not read the file yet: the complete line is there, and no
+   later write can change what it will read *)
+Theorem C14_reader_sees_complete_line : forall presize progs sched p pr g w off, progs_ok progs ->
+  let s := srun (sinit presize progs) sched in
+  nth_error (ss_procs s) p = Some pr -> p_pc pr = PR2 g w off ->
+  exists t, In (g, t) (ss_texts s) /\ written (nth w (ss_files s) []) off t /\ line_at (nth w (ss_files s) []) off = t.
+Proof.
+  intros presize progs sched p pr g w off Ok s N Pc. pose proof (sall_run presize progs sched Ok) as SA. fold s in SA.
+  destruct (b_rd _ (sa_b _ SA) p pr g w off N Pc) as (t & Hin & Hw). exists t. repeat split; auto.
+  apply line_at_written; auto. pose proof (b_tok _ (sa_b _ SA)) as Bt. rewrite Forall_forall in Bt. apply (Bt (g, t) Hin).
+Qed.
+Print Assumptions C14_reader_sees_complete_line.
+
+Theorem C14_duplicate_write : forall s p pr g t o rest s', nth_error (ss_procs s) p = Some pr -> p_pc pr = PW1 g t -> p_todo pr = o :: rest ->
+  stored (ss_index s) g -> sstep s p = Some s' ->
+  (forall i, idx_get (ss_index s') i = idx_get (ss_index s) i) /\ ss_files s' = ss_files s /\ ss_cnt s' = ss_cnt s /\ ss_wf s' = ss_wf s
+  /\ ss_texts s' = ss_texts s /\ ss_lock s' = None
+  /\ exists pr', nth_error (ss_procs s') p = Some pr' /\ p_out pr' = p_out pr ++ [(o, RValueError)] /\ p_pc pr' = PIdle /\ p_todo pr' = rest.
+Proof. exact duplicate_write. Qed.
+Print Assumptions C14_duplicate_write.
+
+(* whenever no operation is inside its critical section: len() is the number of stored ids, waiting_for is the smallest id
+   not stored, every stored text is completely in its file at the recorded offset *)
+Theorem C14_quiescent : forall presize progs sched, progs_ok progs ->
+  let s := srun (sinit presize progs) sched in ss_lock s = None ->
+  ss_cnt s = length (ss_texts s)
+  /\ (forall i, i < ss_wf s -> stored (ss_index s) i) /\ ~ stored (ss_index s) (ss_wf s)
+  /\ (forall g, stored (ss_index s) g <-> In g (map fst (ss_texts s)))
+  /\ (forall g t, In (g, t) (ss_texts s) -> exists w off, idx_get (ss_index s) g = Some (w, off) /\ line_at (nth w (ss_files s) []) off = t).
+Proof.
+  intros presize progs sched Ok s Lk. pose proof (sall_run presize progs sched Ok) as SA. fold s in SA.
+  destruct (quiescent s SA Lk) as (H1 & H2 & H3 & H4). repeat split; auto; apply (b_idx _ (sa_b _ SA)).
+Qed.
+Print Assumptions C14_quiescent.
+
+Theorem C14_is_contiguous : forall presize progs sched, progs_ok progs ->
+  let s := srun (sinit presize progs) sched in ss_lock s = None ->
+  ((ss_wf s =? ss_cnt s) = true <-> forall g, stored (ss_index s) g <-> g < ss_cnt s).
+Proof. intros presize progs sched Ok s Lk. apply contiguous_spec; auto. apply sall_run. exact Ok. Qed.
+Print Assumptions C14_is_contiguous.
+
+Theorem C14_iteration : forall presize progs sched, progs_ok progs ->
+  let s := srun (sinit presize progs) sched in ss_lock s = None ->
+  iter_texts (ss_index s) (ss_files s) =
+  flat_map (fun g => match text_of (ss_texts s) g with Some t => [t] | None => [] end) (seq 0 (length (ss_index s))).
+Proof. intros presize progs sched Ok s Lk. apply iter_spec; auto. apply sall_run. exact Ok. Qed.
+Print Assumptions C14_iteration.
+
+Theorem C14_len_any_time : forall presize progs sched, progs_ok progs ->
+  let s := srun (sinit presize progs) sched in ss_cnt s <= length (ss_texts s) <= S (ss_cnt s).
+Proof. intros presize progs sched Ok s. apply len_bounds. apply sall_run. exact Ok. Qed.
+Print Assumptions C14_len_any_time.
+
+Theorem C14_flush : forall s, let s' := sflush s in
+  ss_index s' = [] /\ ss_files s' = [] /\ ss_cnt s' = 0 /\ ss_wf s' = 0 /\ ss_texts s' = [] /\ (forall g, ~ stored (ss_index s') g).
+Proof. exact flush_resets. Qed.
+Print Assumptions C14_flush.
+
+(* non-vacuity: two writers (gap, reversed order, duplicate), a concurrent reader, pre-sized index; a concrete interleaving *)
+Example C14_concrete :
+  let progs := [[SWrite 2 [97; 98]%Z; SWrite 0 [99]%Z]; [SWrite 0 [100]%Z; SWrite 3 []]; [SRead 2; SRead 1; SContig; SIter]] in
+  let sched := [0; 0; 0; 2; 0; 0; 1; 0; 0; 0; 2; 2; 1; 0; 0; 0; 0; 0; 0; 0; 1; 1; 1; 1; 1; 1; 1; 1; 1; 2; 2; 2; 2; 2; 2; 2; 2; 2; 2; 0; 1; 2; 2] in
+  let s := srun (sinit 2 progs) sched in
+  progs_ok progs /\ ss_lock s = None
+  /\ map (fun pr => map snd (p_out pr)) (ss_procs s)
+     = [[RUnit; RUnit]; [RValueError; RUnit]; [RText [97; 98]%Z; RIndexError; RBool false; RTexts [[99]; [97; 98]; []]%Z]].
+Proof.
+  cbv zeta. split.
+  - repeat constructor; simpl; intuition discriminate.
+  - vm_compute. split; reflexivity.
+Qed.
